@@ -241,3 +241,40 @@ func GenerateSums(seed int32, data []byte) ([]byte, error) {
 	}
 	return buf.Bytes(), nil
 }
+
+// FilterExcluded parses rules (wire format) and reports whether name is excluded.
+func FilterExcluded(rules []string, name string) (bool, error) {
+	l, err := sender.NewFilterRuleList(rules)
+	if err != nil {
+		return false, err
+	}
+	return l.Matches(name), nil
+}
+
+// DeleteFiles runs the receiver's --delete pass over dir for a file list with
+// the given sorted names.
+func DeleteFiles(dir string, names []string, ioErrors int32, dryRun bool, rules []string) error {
+	root, err := os.OpenRoot(dir)
+	if err != nil {
+		return err
+	}
+	defer root.Close()
+	no := func(rsyncopts.InfoLevel, uint16) bool { return false }
+	nod := func(rsyncopts.DebugLevel, uint16) bool { return false }
+	rt := &receiver.Transfer{
+		Logger:   log.New(io.Discard),
+		Opts:     &receiver.TransferOpts{DryRun: dryRun, DeleteMode: true, InfoGTE: no, DebugGTE: nod},
+		Dest:     dir,
+		DestRoot: root,
+		Env:      &rsyncos.Env{Stdout: io.Discard, Stderr: io.Discard},
+		IOErrors: ioErrors,
+	}
+	if rules != nil {
+		l, err := sender.NewFilterRuleList(rules)
+		if err != nil {
+			return err
+		}
+		rt.Excluded = l.Matches
+	}
+	return rt.VerifDeleteFiles(names)
+}
